@@ -67,6 +67,9 @@ pub struct Stats {
     pub complete: bool,
     pub samples: Vec<Value>,
     pub violations: Vec<Violation>,
+    /// violations matched by a listed known finding (id, example); they do not stop the search
+    #[serde(default)]
+    pub known: Vec<(String, Violation)>,
     pub machinery_errors: Vec<String>,
     pub wall_s: f64,
 }
@@ -89,6 +92,7 @@ impl Stats {
         }
         self.samples.extend(o.samples);
         self.violations.extend(o.violations);
+        self.known.extend(o.known);
         self.machinery_errors.extend(o.machinery_errors);
         self.wall_s = self.wall_s.max(o.wall_s);
     }
@@ -264,14 +268,23 @@ impl<'a> Runner<'a> {
                             self.stats.bump(if is_read { "checked.read_unchanged" } else { "checked.err_unchanged" });
                         }
                     }
-                    if world.count() == 0 || matches!(s, Step::Fin) {
-                        if let Some(or) = self.oracle.as_mut() {
+                    {
+                        // property-specific oracle after every step of the last macro (oracles that need a
+                        // block boundary check `world.count()` themselves)
+                        if let Some(mut or) = self.oracle.take() {
                             let mut tmp = outs.clone();
                             tmp.push(o.clone());
+                            self.stats.bump("oracle.evaluations");
                             for (k, d) in or(&mut self.subject, &world, &tmp) {
+                                if let Some(note) = k.strip_prefix("note:") {
+                                    // vacuity counters reported by the oracle, not violations
+                                    self.stats.bump(&format!("oracle.{}", note));
+                                    continue;
+                                }
                                 let v = Violation { kind: k, detail: d, ..self.viol("", path, String::new()) };
                                 violations.push(v);
                             }
+                            self.oracle = Some(or);
                         }
                     }
                 }
@@ -526,7 +539,14 @@ pub fn explore(runner: &mut Runner, b: &Bounds, shard: &Shard, deadline: std::ti
             }
             let v = runner.check_path(path, has_dev);
             if !v.is_empty() {
-                runner.stats.violations.extend(v);
+                let (new, known) = crate::evidence::triage(&runner.opts.property, v);
+                runner.stats.violations.extend(new);
+                for (id, kv) in known {
+                    *runner.stats.counters.entry(format!("known.{}", id.split(':').next().unwrap_or(""))).or_insert(0) += 1;
+                    if runner.stats.known.iter().filter(|(i, _)| *i == id).count() < 2 {
+                        runner.stats.known.push((id, kv));
+                    }
+                }
             }
             if mine.len() < 50_000 && (has_dev || c % 7 == 0) {
                 mine.push(path.to_vec());
